@@ -1,6 +1,8 @@
 // Implementation evaluator: reads one case per line on stdin, runs it against the real hyeong
 // library built from /repo's working tree, prints one canonical result line per case.
+mod execl;
 mod numl;
+mod optl;
 mod parsel;
 
 use std::io::{BufRead, Write};
@@ -8,6 +10,11 @@ use std::panic;
 
 fn main() {
     panic::set_hook(Box::new(|_| {}));
+    let args: Vec<String> = std::env::args().collect();
+    if args.len() > 2 && args[1] == "--child" {
+        execl::child(&args[2..]);
+        return;
+    }
     let stdin = std::io::stdin();
     let stdout = std::io::stdout();
     let mut out = std::io::BufWriter::new(stdout.lock());
@@ -18,6 +25,15 @@ fn main() {
             Some(&"num") => numl::handle(&toks[1..]),
             Some(&"parse") => parsel::handle(&toks[1..]),
             Some(&"reparse") => parsel::handle_reparse(&toks[1..]),
+            Some(&"opt") => match toks.get(1) {
+                Some(&"state") => optl::handle_state(&toks[2..]),
+                _ => "bad:mode".to_string(),
+            },
+            Some(&"exec") => match toks.get(1) {
+                Some(&"pre") => execl::handle_pre(&toks[2..]),
+                Some(&"run") => execl::handle_run(&toks[2..]),
+                _ => "bad:mode".to_string(),
+            },
             _ => "bad:layer".to_string(),
         });
         match res {
